@@ -150,5 +150,26 @@ pub fn job_c18(out_dir: &str, tier: &str, seed: u64) {
         let rec = json!({"id": format!("c18-{n}"), "clauses": ["C18"], "hs": [], "obs": obs});
         sh.push(&rec, &json!({"id": rec["id"], "cfg": cfg, "input": input, "cuts": cuts}), None, true);
     }
-    sh.finish(json!({"rule": "seeded (configuration, input, chunking) jobs (documents, fragment sequences, foreign content, random bytes; observer and mutating handler sets; encodings; memory limits; injected handler failures): the sequential run versus a repeat, the Send handler types, a Send rewriter moved to a fresh thread for every write and for end(), and two concurrent executions on different threads of a pool that runs all jobs with yields and spins between writes (selectors are parsed concurrently on the pool threads)."}));
+    // history on one thread: a rewrite must not depend on which rewriters lived (and died) on the thread before;
+    // large tokens make the parsing buffer grow well beyond its preallocation
+    for (hi, (alen, blen, blimit, bpre)) in [(3000usize, 2500usize, 2048usize, 1024usize), (1500, 1200, 1100, 0), (20000, 9000, 8192, 1024), (5000, 2500, 3000, 16), (70000, 3000, 2048, 1024), (3000, 900, 1024, 512)].iter().enumerate() {
+        let mut a_in = b"<a ".to_vec(); a_in.extend(vec![b'x'; *alen]); a_in.extend_from_slice(b">t</a>");
+        let mut b_in = b"<p>q</p><b ".to_vec(); b_in.extend(vec![b'y'; *blen]); b_in.extend_from_slice(b">u</b>");
+        let a_cfg = json!({"strict": false, "elem": [{"sel":"a","element":[]}]});
+        let b_cfg = json!({"strict": false, "elem": [{"sel":"b","element":[]}], "mem": {"max": blimit, "prealloc": bpre}});
+        let a_cuts = vec![alen / 2];
+        let b_cuts = vec![blen / 2 + 11];
+        let fresh = { let (c, i, k) = (b_cfg.clone(), b_in.clone(), b_cuts.clone());
+            std::thread::spawn(move || { crate::driver::silence_panics(); observation("fresh-thread", &driver::run(&c, &i, &k, &RunOpts { send: true, ..RunOpts::default() }), &|_: &str| true) }).join().unwrap() };
+        let after = { let (ac, ai, ak, c, i, k) = (a_cfg.clone(), a_in.clone(), a_cuts.clone(), b_cfg.clone(), b_in.clone(), b_cuts.clone());
+            std::thread::spawn(move || { crate::driver::silence_panics();
+                let _ = driver::run(&ac, &ai, &ak, &RunOpts { send: true, ..RunOpts::default() });
+                let o1 = observation("after-a-large-rewrite-on-the-same-thread", &driver::run(&c, &i, &k, &RunOpts { send: true, ..RunOpts::default() }), &|_: &str| true);
+                let o2 = observation("second-time-on-the-same-thread", &driver::run(&c, &i, &k, &RunOpts { send: true, ..RunOpts::default() }), &|_: &str| true);
+                (o1, o2) }).join().unwrap() };
+        n += 1;
+        let rec = json!({"id": format!("c18-{n}"), "clauses": ["C18"], "hs": [], "obs": [fresh, after.0, after.1]});
+        sh.push(&rec, &json!({"id": rec["id"], "history": hi, "cfg": b_cfg, "input_len": b_in.len(), "cuts": b_cuts}), None, true);
+    }
+    sh.finish(json!({"rule": "seeded (configuration, input, chunking) jobs (documents, fragment sequences, foreign content, random bytes; observer and mutating handler sets; encodings; memory limits; injected handler failures): the sequential run versus a repeat (also after a large rewrite lived and died on the same thread, versus a fresh thread), the Send handler types, a Send rewriter moved to a fresh thread for every write and for end(), and two concurrent executions on different threads of a pool that runs all jobs with yields and spins between writes (selectors are parsed concurrently on the pool threads)."}));
 }
